@@ -28,15 +28,30 @@ use tsv_harness::*;
 
 const NAME: &str = "c19g";
 
+/// Version of the sources a loaded library was built from: parser.c version (the grammar has a rule
+/// `ver_<P>`) + 10 x scanner.c version (scanner v1 accepts `a` as the external token, v2 accepts `b`;
+/// 0 = no external scanner).
 fn version_of(lang: &Language) -> Option<u32> {
+    let mut pv = None;
     for i in 0..lang.node_kind_count() {
         if let Some(k) = lang.node_kind_for_id(i as u16) {
             if let Some(r) = k.strip_prefix("ver_") {
-                return r.parse().ok();
+                pv = r.parse::<u32>().ok();
             }
         }
     }
-    None
+    let pv = pv?;
+    let mut parser = tree_sitter::Parser::new();
+    parser.set_language(lang).ok()?;
+    let accepts = |parser: &mut tree_sitter::Parser, text: &str| parser.parse(text, None).map(|t| !t.root_node().has_error()).unwrap_or(false);
+    let sv = if accepts(&mut parser, "v a") {
+        1
+    } else if accepts(&mut parser, "v b") {
+        2
+    } else {
+        0
+    };
+    Some(pv + 10 * sv)
 }
 
 fn classify(e: &LoaderError) -> String {
@@ -138,12 +153,24 @@ void *tree_sitter_c19g_external_scanner_create(void) { return 0; }
 void tree_sitter_c19g_external_scanner_destroy(void *p) { (void)p; }
 unsigned tree_sitter_c19g_external_scanner_serialize(void *p, char *b) { (void)p; (void)b; return 0; }
 void tree_sitter_c19g_external_scanner_deserialize(void *p, const char *b, unsigned n) { (void)p; (void)b; (void)n; }
-bool tree_sitter_c19g_external_scanner_scan(void *p, TSLexer *l, const bool *v) { (void)p; (void)l; (void)v; return false; }
+bool tree_sitter_c19g_external_scanner_scan(void *p, TSLexer *l, const bool *v) {
+  (void)p;
+  if (!v[0]) return false;
+  while (l->lookahead == ' ') l->advance(l, true);
+  if (l->lookahead == C19_SCANNER_CHAR) { l->advance(l, false); l->result_symbol = 0; return true; }
+  return false;
+}
 "#;
+
+/// scanner.c of version 1 accepts `a`, of version 2 accepts `b`.
+fn scanner_c(sv: u32) -> String {
+    format!("#define C19_SCANNER_CHAR '{}'\n{}", if sv == 1 { 'a' } else { 'b' }, SCANNER_C)
+}
 
 struct Sources {
     parser_c: HashMap<(u32, bool), String>,
-    prebuilt: HashMap<(u32, bool), PathBuf>,
+    /// (parser version, scanner version or 0) -> prebuilt library
+    prebuilt: HashMap<(u32, u32), PathBuf>,
 }
 
 fn write_headers(dir: &Path) {
@@ -159,20 +186,22 @@ fn prepare_sources(root: &Path) -> Sources {
         for ver in 1..=2u32 {
             let (name, pc) = zoo::generate(&grammar_json(ver, scanner), Default::default()).expect("generate c19g");
             assert_eq!(name, NAME);
-            let d = root.join(format!("pre-{ver}-{}", scanner as u8));
-            write_headers(&d);
-            fs::write(d.join("parser.c"), &pc).unwrap();
-            let mut cmd = Command::new("cc");
-            cmd.current_dir(&d).args(["-shared", "-fPIC", "-O0", "-w", "-std=c11", "-I", ".", "parser.c"]);
-            if scanner {
-                fs::write(d.join("scanner.c"), SCANNER_C).unwrap();
-                cmd.arg("scanner.c");
-            }
-            let out = cmd.args(["-o", "lib.so"]).output().expect("cc");
-            assert!(out.status.success(), "prebuild failed: {}", String::from_utf8_lossy(&out.stderr));
-            s.prebuilt.insert((ver, scanner), d.join("lib.so"));
             s.parser_c.insert((ver, scanner), pc);
         }
+    }
+    for (pv, sv) in [(1u32, 0u32), (2, 0), (1, 1), (1, 2), (2, 1), (2, 2)] {
+        let d = root.join(format!("pre-{pv}-{sv}"));
+        write_headers(&d);
+        fs::write(d.join("parser.c"), &s.parser_c[&(pv, sv > 0)]).unwrap();
+        let mut cmd = Command::new("cc");
+        cmd.current_dir(&d).args(["-shared", "-fPIC", "-O0", "-w", "-std=c11", "-I", ".", "parser.c"]);
+        if sv > 0 {
+            fs::write(d.join("scanner.c"), scanner_c(sv)).unwrap();
+            cmd.arg("scanner.c");
+        }
+        let out = cmd.args(["-o", "lib.so"]).output().expect("cc");
+        assert!(out.status.success(), "prebuild failed: {}", String::from_utf8_lossy(&out.stderr));
+        s.prebuilt.insert((pv, sv), d.join("lib.so"));
     }
     s
 }
@@ -189,6 +218,8 @@ struct Setup {
     temp: bool,
     broken: bool,
     scanner: bool,
+    /// with a scanner, which source the stale library is older than: p(arser.c), s(canner.c), ps (both)
+    stalekind: String,
 }
 
 fn lib_path(work: &Path) -> PathBuf {
@@ -215,19 +246,27 @@ fn setup_case(work: &Path, st: &Setup, src: &Sources) {
     if st.broken {
         pc.push_str("\n#error \"c19: these sources do not compile\"\n");
     }
+    // The current sources are parser.c v2 (+ scanner.c v2).  A stale library is older than parser.c,
+    // than scanner.c, or than both — and was built from version 1 of exactly those sources.
+    let sk = if st.scanner { st.stalekind.as_str() } else { "p" };
+    let (old_p, old_s) = (sk.contains('p'), st.scanner && sk.contains('s'));
+    let age = |old: bool| now - Duration::from_secs(if old { 500 } else { 900 });
     fs::write(sdir.join("parser.c"), pc).unwrap();
-    set_mtime(&sdir.join("parser.c"), now - Duration::from_secs(500));
+    set_mtime(&sdir.join("parser.c"), if st.lib == "stale" { age(old_p) } else { now - Duration::from_secs(500) });
     if st.scanner {
-        fs::write(sdir.join("scanner.c"), SCANNER_C).unwrap();
-        set_mtime(&sdir.join("scanner.c"), now - Duration::from_secs(500));
+        fs::write(sdir.join("scanner.c"), scanner_c(2)).unwrap();
+        set_mtime(&sdir.join("scanner.c"), if st.lib == "stale" { age(old_s) } else { now - Duration::from_secs(500) });
     }
+    let sv2 = if st.scanner { 2 } else { 0 };
     match st.lib.as_str() {
         "stale" => {
-            fs::copy(&src.prebuilt[&(1, st.scanner)], lib_path(work)).unwrap();
-            set_mtime(&lib_path(work), now - Duration::from_secs(1000));
+            let pv = if old_p { 1 } else { 2 };
+            let sv = if !st.scanner { 0 } else if old_s { 1 } else { 2 };
+            fs::copy(&src.prebuilt[&(pv, sv)], lib_path(work)).unwrap();
+            set_mtime(&lib_path(work), now - Duration::from_secs(700));
         }
         "fresh" => {
-            fs::copy(&src.prebuilt[&(2, st.scanner)], lib_path(work)).unwrap();
+            fs::copy(&src.prebuilt[&(2, sv2)], lib_path(work)).unwrap();
             set_mtime(&lib_path(work), now - Duration::from_secs(100));
         }
         _ => {}
@@ -407,7 +446,7 @@ fn parse_sched(line: &str) -> Option<Sched> {
     let steps = m.get("steps").map(|s| s.split(',').filter(|x| !x.is_empty()).filter_map(|x| x.split_once(':')).map(|(p, a)| (p.parse().unwrap(), a.to_string())).collect()).unwrap_or_default();
     Some(Sched {
         id,
-        setup: Setup { lib: m.get("lib")?.clone(), lock: m.get("lock")? == "1", temp: m.get("temp")? == "1", broken: m.get("broken")? == "1", scanner: m.get("scanner").map(|s| s == "1").unwrap_or(false) },
+        setup: Setup { lib: m.get("lib")?.clone(), lock: m.get("lock")? == "1", temp: m.get("temp")? == "1", broken: m.get("broken")? == "1", scanner: m.get("scanner").map(|s| s == "1").unwrap_or(false), stalekind: m.get("stalekind").cloned().unwrap_or_else(|| "p".into()) },
         n: m.get("n")?.parse().ok()?,
         k: m.get("K")?.parse().ok()?,
         steps,
@@ -544,13 +583,14 @@ struct Free {
 
 fn free_spec(f: &Free) -> String {
     format!(
-        "free {} lib={} lock={} temp={} broken={} scanner={} procs={} threads={} kill={} victim={} dolater={}",
+        "free {} lib={} lock={} temp={} broken={} scanner={} stalekind={} procs={} threads={} kill={} victim={} dolater={}",
         f.id,
         f.setup.lib,
         f.setup.lock as u8,
         f.setup.temp as u8,
         f.setup.broken as u8,
         f.setup.scanner as u8,
+        f.setup.stalekind,
         f.procs,
         f.threads,
         f.kill_after_ms.map(|k| k.to_string()).unwrap_or_else(|| "-".into()),
@@ -568,7 +608,7 @@ fn parse_free(line: &str) -> Option<Free> {
     let m = kv(line);
     Some(Free {
         id,
-        setup: Setup { lib: m.get("lib")?.clone(), lock: m.get("lock")? == "1", temp: m.get("temp")? == "1", broken: m.get("broken")? == "1", scanner: m.get("scanner")? == "1" },
+        setup: Setup { lib: m.get("lib")?.clone(), lock: m.get("lock")? == "1", temp: m.get("temp")? == "1", broken: m.get("broken")? == "1", scanner: m.get("scanner")? == "1", stalekind: m.get("stalekind").cloned().unwrap_or_else(|| "p".into()) },
         procs: m.get("procs")?.parse().ok()?,
         threads: m.get("threads")?.parse().ok()?,
         kill_after_ms: m.get("kill").and_then(|s| s.parse().ok()),
@@ -634,7 +674,7 @@ fn run_free(work: &Path, f: &Free, src: &Sources, hook: bool) -> String {
 
 fn detect_hook(root: &Path, src: &Sources) -> bool {
     let work = root.join("hookprobe");
-    let st = Setup { lib: "fresh".into(), lock: false, temp: false, broken: false, scanner: false };
+    let st = Setup { lib: "fresh".into(), lock: false, temp: false, broken: false, scanner: false, stalekind: "p".into() };
     setup_case(&work, &st, src);
     let mut ctl = Ctl::new(&work);
     let mut ch = spawn_loader(&work, "L0", true, None);
@@ -748,9 +788,10 @@ fn main() {
             for line in fs::read_to_string(f).unwrap().lines() {
                 if let Some(mut s) = parse_sched(line) {
                     // exploration parameters the model does not care about
-                    s.setup.scanner = rng.chance(1, 4);
+                    s.setup.scanner = rng.chance(1, 2);
+                    s.setup.stalekind = ["p", "s", "ps", "s"][rng.below(4)].to_string();
                     s.threads = !s.steps.iter().any(|(_, a)| a == "crash") && rng.chance(1, 3);
-                    s.raw = format!("{} scanner={} threads={}", s.raw, s.setup.scanner as u8, s.threads as u8);
+                    s.raw = format!("{} scanner={} stalekind={} threads={}", s.raw, s.setup.scanner as u8, s.setup.stalekind, s.threads as u8);
                     scheds.push(s);
                 }
             }
@@ -769,7 +810,7 @@ fn main() {
             let later = hook || thorough || kill.is_none();
             frees.push(Free {
                 id: format!("f{k}"),
-                setup: Setup { lib, lock, temp: rng.chance(1, 4), broken, scanner: rng.chance(1, 4) },
+                setup: Setup { lib, lock, temp: rng.chance(1, 4), broken, scanner: rng.chance(1, 2), stalekind: ["p", "s", "ps", "s"][rng.below(4)].to_string() },
                 procs,
                 threads,
                 kill_after_ms: kill,
